@@ -4,8 +4,8 @@ from __future__ import annotations
 import typed
 
 ID = "C09"
-THEOREMS = ["follow_effSound", "follow_effects_are_declared", "streamOp_effects_are_declared", "methodEff_order", "cbEff_log", "cbEff_md", "follow_writer", "follow_appends", "follow_effects_appended", "follow_error_independent", "followL_appends", "no_callback_no_effect", "callback_effect", "class_before_method"]
-LEANCHECKER_MODULES = ["Fadl.Props.C09Sound", "Fadl.Props.C09Writer", "Fadl.Props.C09"]  # re-checked by leanchecker in the thorough tier
+THEOREMS = ["follow_spec", "streamOp_spec_ok", "follow_effSound", "follow_effects_are_declared", "streamOp_effects_are_declared", "methodEff_order", "cbEff_log", "cbEff_md", "follow_writer", "follow_appends", "follow_effects_appended", "follow_error_independent", "followL_appends", "no_callback_no_effect", "callback_effect", "class_before_method"]
+LEANCHECKER_MODULES = ["Fadl.Props.FollowSpec", "Fadl.Props.C09Sound", "Fadl.Props.C09Writer", "Fadl.Props.C09"]  # re-checked by leanchecker in the thorough tier
 RULE = (
     "generated class models (gen/classes.py: Trk, Cal, Jet, Vec[T](Iterable[T]), JVec(Vec[Jet]), Evt, an optional registered "
     "collection class, two registered functions; 0-4 parameters per method with a random suffix of defaults of int/float/"
